@@ -175,6 +175,9 @@ func (g *genState) genType(depth int, allowInline bool) *typeSpec {
 		case 2:
 			f.Key = g.freshKey("k")
 			f.Omit = true
+		case 3:
+			f.Key = "" // flags only (`yaml:",omitempty"`): the key is still the lower-cased field name
+			f.Omit = true
 		default:
 			f.Key = g.freshKey("k")
 		}
@@ -836,7 +839,7 @@ func loosen(n *gt.Node) *gt.Node {
 // ---------------------------------------------------------------------------
 // the property
 
-var rec = ev.New("TestPropPartition", "(target type, document) pairs: struct types generated at run time with reflect.StructOf (1-8 fields of kinds string,int,bool,float64,any,[]string,[]int,[]any,map[string]string,map[string]any,nested struct,*struct,[]struct; tags named / omitempty / untagged / \"-\"; at most one ,inline of type map[string]any, *ordered.MapSA, any or *struct; optional alias lists) x mappings over any subset of primaries, aliases, skipped-field names and unknown names incl. \"\" with well-typed values and nulls, into fresh or pre-filled targets; oracle 1 = reference partition rule applied by reflection to an identical target; oracle 2 (alias-free, top-level inline map, fresh target, exact-typed values) = yaml.Node.Decode into the same type; non-trivial = >= 1 alias hit and >= 1 leftover key, or >= 3 field kinds; distinct by hash of (type, document)")
+var rec = ev.New("TestPropPartition", "(target type, document) pairs: struct types generated at run time with reflect.StructOf (1-8 fields of kinds string,int,bool,float64,any,[]string,[]int,[]any,map[string]string,map[string]any,nested struct,*struct,[]struct; tags named / named,omitempty / flags-only (\",omitempty\") / untagged / \"-\"; at most one ,inline of type map[string]any, *ordered.MapSA, any or *struct; optional alias lists) x mappings over any subset of primaries, aliases, skipped-field names and unknown names incl. \"\" with well-typed values and nulls, into fresh or pre-filled targets; oracle 1 = reference partition rule applied by reflection to an identical target; oracle 2 (alias-free, top-level inline map, fresh target, exact-typed values) = yaml.Node.Decode into the same type; non-trivial = >= 1 alias hit and >= 1 leftover key, or >= 3 field kinds; distinct by hash of (type, document)")
 
 func TestPropPartition(t *testing.T) {
 	ev.Check(t, 15000, 500000, func(t *rapid.T) {
